@@ -100,7 +100,9 @@ def strategy(tier):
         st.fixed_dictionaries({'k': st.just('wire'), 'v': st.one_of(
             text, st.sampled_from(['[1,2]', '{"a":1}', 'true', 'null', '"2"',
                                    '[]', '{}', '["2[\\"a\\"]"]', '2', '-1',
-                                   '{"type":2,"data":["a"],"nsp":"/"}']))}),
+                                   '{"type":2,"data":["a"],"nsp":"/"}',
+                                   'false', ' 1.0', ' 0.0', '\n2.0',
+                                   'true', ' true', 'false']))}),
         st.fixed_dictionaries({'k': st.just('bin'),
                                'v': st.one_of(S.bytes_st(), st.binary(
                                    max_size=30))}),
@@ -388,6 +390,19 @@ def _run(case, w):
                     labels['allowed_type_on_shared_ns'] = True
             except Exception:
                 decodable = False
+        if k == 'wire' and not mid_binary:
+            # engine.io JSON-decodes a text message that does not start with
+            # a digit: what it then hands over is not a Socket.IO packet (a
+            # packet starts with its type digit), except the plain integers
+            # of the legacy form
+            try:
+                sniffed = w.h.eio_packet.Packet(
+                    encoded_packet='4' + _subst(fr['v'], table)).data
+            except Exception:
+                sniffed = ''
+            if type(sniffed) not in (str, bytes, int):
+                decodable = False
+                labels['sniffed_value_not_a_packet'] = True
         g0 = graphsize.size(sio)
         tracemalloc.reset_peak()
         m0 = tracemalloc.get_traced_memory()[0]
